@@ -333,6 +333,11 @@ func (t *tScreen) prepareXtermModifiers() {
 	t.prepareKeyModXTerm(KeyPgDn, t.ti.KeyPgDn)
 	t.prepareKeyModXTerm(KeyHome, t.ti.KeyHome)
 	t.prepareKeyModXTerm(KeyEnd, t.ti.KeyEnd)
+	// Whichever unmodified form the description lists, xterm and the
+	// terminals that follow it send Home and End with a modifier as
+	// CSI 1 ; m H and CSI 1 ; m F (the forms derived from SS3 H / SS3 F).
+	t.prepareKeyModXTerm(KeyHome, "\x1bOH")
+	t.prepareKeyModXTerm(KeyEnd, "\x1bOF")
 	t.prepareKeyModXTerm(KeyF1, t.ti.KeyF1)
 	t.prepareKeyModXTerm(KeyF2, t.ti.KeyF2)
 	t.prepareKeyModXTerm(KeyF3, t.ti.KeyF3)
